@@ -1071,7 +1071,7 @@ impl AvxVector256 for __m256 {
 
     #[inline(always)]
     unsafe fn load_partial1_complex(ptr: *const Complex<Self::ScalarType>) -> Self::HalfVector {
-        let data = _mm_load_sd(ptr as *const f64);
+        let data = _mm_set_sd((ptr as *const f64).read_unaligned());
         _mm_castpd_ps(data)
     }
     #[inline(always)]
@@ -1086,7 +1086,7 @@ impl AvxVector256 for __m256 {
     }
     #[inline(always)]
     unsafe fn store_partial1_complex(ptr: *mut Complex<Self::ScalarType>, data: Self::HalfVector) {
-        _mm_store_sd(ptr as *mut f64, _mm_castps_pd(data));
+        (ptr as *mut f64).write_unaligned(_mm_cvtsd_f64(_mm_castps_pd(data)));
     }
     #[inline(always)]
     unsafe fn store_partial2_complex(ptr: *mut Complex<Self::ScalarType>, data: Self::HalfVector) {
